@@ -300,7 +300,7 @@ def peek_copy(ctx: Ctx) -> None:
         if callee_name(ctx, fi, c).endswith("parse_msd"):
             kw = {k.arg: k.value for k in c.keywords}
             if "string" in kw:
-                m = match("''.join($x)", inline(kw["string"], fi))
+                m = match("''.join($x)", inline(kw["string"], fi)) or match("$x.getvalue()", inline(kw["string"], fi)) or match("$x.read()", inline(kw["string"], fi))
                 okp = m is not None and isinstance(m["x"], ast.Name) and any(b.kind.startswith("unpack") or b.kind == "assign" for b in locals_of(fi).b.get(m["x"].id, []))
                 ctx.expect("R-REWIND", fi, "the peek parses the complete text of the other copy", okp, src(kw["string"]), f"string={src(kw['string'])}", node=c)
 
